@@ -151,12 +151,17 @@ func init() {
 	})
 	register(&Check{
 		ID: "C15", Level: "exploration",
-		Rule:        "at every quiescent step of the conformance histories: schedulable flag read immediately before every schedule request vs the outcome of that request and vs the model; running flag vs the job list of the same state; every accepted job reported by id and in the list exactly once; created<=start<=end, task start<=end; a situation is (admission class, #running, #waiting[, decision])",
+		Rule:        "at every quiescent step of the conformance histories: schedulable flag read immediately before every schedule request vs the outcome of that request and vs the model; running flag vs the job list of the same state; every accepted job reported by id and in the list exactly once; created<=start<=end, task start<=end; every 6th case is a directed life-cycle scenario (pipeline removed by a reload while its jobs run, saves that drop them, the dropped jobs ending, pipeline defined again) judged model-free: running flag vs job list, schedulable flag vs the request issued immediately afterwards, a pipeline reported idle starts the next job; a situation is (admission class, #running, #waiting[, decision]) resp. (life-cycle stage, flags, listed jobs)",
 		Assumptions: []string{seqAssumption},
 		Cases:       func(t string) int { return tierN(t, 1600, 40000) },
 		RunCase: func(c *CaseCtx) *CaseResult {
 			if c.Idx%100 == 99 {
 				return taskOrderCase(c)
+			}
+			if c.Idx%6 == 3 {
+				// flags vs job list vs next request over the life cycle of a definition: removed by a reload while its jobs
+				// run, saved (the jobs are dropped), the dropped jobs end, defined again
+				return simpleCase(c, drv.RunLifecycleCase(c.Seed, c.TmpDir), 100)
 			}
 			o := admissionOpts(c.Idx + 5)
 			o.HTTP = c.Idx%2 == 0
